@@ -5,7 +5,7 @@
    configuration, i.e. every schedule of the threads of coq/Server/Server.v. *)
 From CV Require Import Server.Server Server.ServerProofs Server.ServerSteps Server.ServerStart Server.ServerTheorems
   Server.ServerOnce Server.ServerExamples Server.AqInv Server.AqTheorems Server.ServerOrder Server.OrderTheorems
-  Server.OnceTheorems.
+  Server.OnceTheorems Server.Live Server.NoStuck Server.Measure.
 From Coq Require Import List Arith Bool.
 Import ListNotations.
 
@@ -122,6 +122,56 @@ Theorem C12_passthrough_after_queue : forall P c p c', reachable P c -> step P c
   else aq_ph c (proot c p) = ADrained /\ procs (proot c p) (trace c) = enqs (proot c p) (trace c).
 Proof. exact passthrough_after_queue_lemma. Qed.
 Print Assumptions C12_passthrough_after_queue.
+
+(* no_stuck (deadlock freedom), for every policy with MaxConcurrentCalls >= 1 (New guarantees it):
+   in every reachable configuration in which some thread has begun and not finished (a start
+   goroutine, an implementation goroutine, a pipelined call, Shutdown) either a step of the
+   library's own code is enabled, or the application holds the ball: a method implementation is
+   executing (possibly un-acked) or a delivered pipelined call has not been returned by the
+   capability it was delivered to - and then that application step is enabled.
+   Pipelined calls are delivered to capabilities outside the server (see docs: a result that
+   contains the server's own capability is outside the model). *)
+Theorem C12_no_stuck : forall P c, 1 <= p_max P -> reachable P c -> live c ->
+  lib_enabled P c \/ app_pending c.
+Proof. exact no_stuck_lemma. Qed.
+Print Assumptions C12_no_stuck.
+
+Theorem C12_app_can_move : forall P c, app_pending c ->
+  exists t, (exists x e, t = TRet x e \/ t = TTargetRet x e) /\ step P c t <> None.
+Proof. exact app_can_move_lemma. Qed.
+Print Assumptions C12_app_can_move.
+
+(* termination measures: each thread's own steps strictly decrease its measure (the panic outcome
+   is excluded by hypothesis here) *)
+Theorem C12_impl_measure : forall P c x c', invA P c -> step P c (TImpl x) = Some c' ->
+  impl_measure c' x < impl_measure c x.
+Proof. exact impl_measure_lemma. Qed.
+Print Assumptions C12_impl_measure.
+
+Theorem C12_pipe_measure : forall P c p c', panicked c' = false ->
+  (step P c (TPipe p) = Some c' \/ step P c (TPipeCtx p) = Some c') ->
+  pipe_measure c' p < pipe_measure c p.
+Proof. exact pipe_measure_lemma. Qed.
+Print Assumptions C12_pipe_measure.
+
+Theorem C12_shutdown_measure : forall P c c', panicked c' = false -> step P c TShutdown = Some c' ->
+  shut_measure c' < shut_measure c.
+Proof. exact shut_measure_lemma. Qed.
+Print Assumptions C12_shutdown_measure.
+
+(* partial: Server.start has a wait loop on the gate. Every own step decreases the measure except a
+   re-wait: the goroutine was woken by the release of the gate it waited for and finds the gate
+   taken by another call. Missing for a full termination measure: a bound on the number of
+   re-waits (each call takes the gate at most once, so it is bounded by the number of competing
+   calls; under an unfair scheduler with unboundedly many competing callers a waiter can starve -
+   this is the behaviour of the Go code, which wakes all waiters and lets them race for srv.mu). *)
+Theorem C12_start_measure_partial : forall P c x c', panicked c' = false ->
+  (step P c (TStart x) = Some c' \/ step P c (TStartCtx x) = Some c') ->
+  start_measure c' x < start_measure c x
+  \/ (exists h h', spc c x = SWaitGate h /\ spc c' x = SWaitGate h' /\
+                   gate_rel c h = true /\ starting c = Some h').
+Proof. exact start_measure_lemma. Qed.
+Print Assumptions C12_start_measure_partial.
 
 (* non-vacuity: the cap is reached, Shutdown waits for a running call; and the pre-fix variant of
    queueCaller.PipelineRecv (p_fixed = false) delivers to the wrong answer *)
